@@ -5,8 +5,8 @@ from . import devices, fakesock, reflogix, refproject as rpj, reftarget as rt
 from .bench import Bench, ScenarioDead
 
 # gm_conn_us: generic_message(..., unconnected_send=True) with `connected` left at its default (True) - a connected message all the same
-CIP_OPS = ["open", "close", "gm_conn", "gm_ucmm", "gm_usend", "with_ok", "with_exc", "list_id", "gm_conn_us"]
-LOGIX_OPS = ["open", "close", "read", "write", "read_big", "plc_name", "with_ok", "with_exc", "gm_conn", "gm_conn_us"]
+CIP_OPS = ["open", "close", "gm_conn", "gm_ucmm", "gm_usend", "with_ok", "with_exc", "list_id", "gm_conn_us", "with_commerr"]
+LOGIX_OPS = ["open", "close", "read", "write", "read_big", "plc_name", "with_ok", "with_exc", "gm_conn", "gm_conn_us", "with_commerr"]
 SLC_OPS = ["open", "close", "slc_read", "slc_write", "with_ok"]
 POLICIES = ["large-ok", "large-refused", "all-fo-refused", "session-refused", "service-error", "list-identity-broken"]
 FAULT_KINDS = ["send-raise", "recv-raise", "recv-eof", "vanish"]
@@ -137,11 +137,15 @@ class Run:
             return b.call(op, d.read, "N7:0", "B3:1/2")
         if op == "slc_write":
             return b.call(op, d.write, ("N7:1", 5))
-        if op in ("with_ok", "with_exc"):
+        if op in ("with_ok", "with_exc", "with_commerr"):
             def body():
                 with d:
                     if op == "with_exc":
                         raise UserError("user code failed inside the with block")
+                    if op == "with_commerr":
+                        # the block is left through the library's own CommError (user code re-raising / raising it) while the target
+                        # is still there: leaving the block closes like any other exit
+                        raise p.CommError("user code gave up inside the with block")
                     if self.kind in ("logix", "micro"):
                         tags = self.prj.user_tags()
                         return d.read(tags[0].full_name)
@@ -176,12 +180,12 @@ class Run:
                         self.findings.append(("foreign-exception:UserError", f"unexpected UserError [{ctxt}]"))
                 elif not isinstance(out, PycommError):
                     self.findings.append((f"foreign-exception:{op}:{type(out).__name__}", f"{op}() raised {type(out).__name__}: {out!s:.120} - not a library exception [{ctxt}]"))
-            if op == "with_exc" and st == "ok":
+            if op in ("with_exc", "with_commerr") and st == "ok":
                 self.findings.append(("with-block-swallows-exception", f"an exception raised inside the with block did not propagate [{ctxt}]"))
             if fired_now and self.close_calls > closes_before:
                 for c in t.connections.values():
                     c.orphaned = True   # its Forward Close was destroyed by the injected fault: dies by timeout, not a leak
-            if op in ("close", "with_ok", "with_exc") and self.close_calls > closes_before:
+            if op in ("close", "with_ok", "with_exc", "with_commerr") and self.close_calls > closes_before:
                 if getattr(self.drv, "connected", None):
                     self.findings.append((f"connected-after-close:{op}", f"driver.connected is True after {op} ({st}) [{ctxt}]"))
                 if not fired_now and not net.vanished and not (self.fault and self.fault[1] == "vanish" and net.fault.fired):
